@@ -131,9 +131,13 @@ pub fn check_radius(c: &RadCase, rec: &mut Rec) -> Result<(), Violation> {
     Ok(v) => v,
     Err(p) => return Err(f(Violation::new("c2v_with_radius", "panic", format!("largest_center_to_vertex_distance_with_radius({}, {:e}, {:e}, {:e}) panicked: {}", d, lon, lat, r, p)))),
   };
-  // array variant: entry k <-> depth from + k, length to - from
-  let from = d.saturating_sub(2);
-  let to = (d + 2).min(30);
+  // array variant: entry k <-> depth from + k, length to - from; usually the 4 depths around d,
+  // sometimes the long spans the cone code itself asks for (from 0 / up to depth 29)
+  let (from, to) = match c.wit.len() % 8 {
+    0 => (0u8, (d + 1).min(30)),
+    1 => (d, 30u8),
+    _ => (d.saturating_sub(2), (d + 2).min(30)),
+  };
   let arr = match catch(|| cdshealpix::largest_center_to_vertex_distances_with_radius(from, to, lon, lat, r)) {
     Ok(v) => v,
     Err(p) => return Err(f(Violation::new("c2v_with_radius_array", "panic", format!("largest_center_to_vertex_distances_with_radius({}, {}, {:e}, {:e}, {:e}) panicked: {}", from, to, lon, lat, r, p)))),
@@ -141,48 +145,64 @@ pub fn check_radius(c: &RadCase, rec: &mut Rec) -> Result<(), Violation> {
   if arr.len() != (to - from) as usize {
     return Err(f(Violation::new("c2v_with_radius_array", "wrong_length", format!("largest_center_to_vertex_distances_with_radius({}, {}, ..) has {} entries", from, to, arr.len()))));
   }
-  let ba = arr[(d - from) as usize];
-  // witnesses
+  // witnesses: the position, random points of the cone, points near the rim in 16 directions (the
+  // northern / southern extremes and the largest longitude excursions are among them), and the cells
+  // next to the 8 three-cell points
   let mut pts: Vec<(f64, f64)> = vec![(lon, lat)];
   for &(fr, az) in &c.wit {
     pts.push(geom::point_at(lon, lat, r * fr, az));
   }
-  // the cells next to the 8 three-cell points, on the polar-cap side of the base-cell borders: the
-  // largest centre-to-vertex distances of a depth; used only if their centre is within the radius
-  {
-    let e = 0.2 / n as f64;
-    let tl = geom::transition_latitude();
+  for k in 0..16 {
+    let az = k as f64 * std::f64::consts::PI / 8.0;
+    pts.push(geom::point_at(lon, lat, r * 0.999, az));
+    pts.push(geom::point_at(lon, lat, r * 0.9, az));
+  }
+  let tl = geom::transition_latitude();
+  let mut compared = 0u32;
+  // depths judged: d with every witness (both variants), the other entries of the array with a few
+  for dk in from..to {
+    let nk = 1i64 << dk;
+    let val_arr = arr[(dk - from) as usize];
+    let mut ptsk: Vec<(f64, f64)> = if dk == d { pts.clone() } else { pts.iter().take(9).cloned().collect() };
+    let e = 0.2 / nk as f64;
     for q in 0..4 {
       for s in [-1.0f64, 1.0] {
         for side in [-1.0f64, 1.0] {
-          pts.push(((q as f64 * geom::HALF_PI + side * e).rem_euclid(geom::TWO_PI), s * (tl + e)));
+          ptsk.push(((q as f64 * geom::HALF_PI + side * e).rem_euclid(geom::TWO_PI), s * (tl + e)));
+        }
+      }
+    }
+    for (wl, wb) in ptsk {
+      let h = match catch(|| nested::hash(dk, wl, wb)) {
+        Ok(h) => h,
+        Err(_) => continue,
+      };
+      let cell = lattice::nested_decode(dk, h);
+      let (cl, cb) = geom::cell_center_sphere(nk, cell);
+      if geom::ang_dist(cl, cb, lon, lat) > r {
+        continue; // the centre of that cell is not within the radius
+      }
+      compared += 1;
+      let truth = geom::c2v_model(nk, cell);
+      let mut vals = vec![("largest_center_to_vertex_distances_with_radius", val_arr)];
+      if dk == d {
+        rec.metric_min("bound_over_truth", b / truth);
+        vals.push(("largest_center_to_vertex_distance_with_radius", b));
+      }
+      for (name, val) in vals {
+        if !(val >= truth * (1.0 - REL) - ABS) {
+          return Err(f(Violation::new(
+            if name.ends_with("distance_with_radius") { "c2v_with_radius" } else { "c2v_with_radius_array" },
+            "not_a_bound",
+            format!("{}(depth {}, {:e}, {:e}, r={:e}) = {:e} but cell {} = {:?}, whose centre ({:e}, {:e}) is within the radius, has a vertex {:e} rad from its centre (ratio {})", name, dk, lon, lat, r, val, h, cell, cl, cb, truth, val / truth),
+          )
+          .fact("cell_abs_lat", cb.abs())
+          .fact("entry_depth", dk as f64)));
         }
       }
     }
   }
-  for (wl, wb) in pts {
-    let h = match catch(|| nested::hash(d, wl, wb)) {
-      Ok(h) => h,
-      Err(_) => continue,
-    };
-    let cell = lattice::nested_decode(d, h);
-    let (cl, cb) = geom::cell_center_sphere(n, cell);
-    if geom::ang_dist(cl, cb, lon, lat) > r {
-      continue; // the centre of that cell is not within the radius
-    }
-    let truth = geom::c2v_model(n, cell);
-    rec.metric_min("bound_over_truth", b / truth);
-    for (name, val) in [("largest_center_to_vertex_distance_with_radius", b), ("largest_center_to_vertex_distances_with_radius", ba)] {
-      if !(val >= truth * (1.0 - REL) - ABS) {
-        return Err(f(Violation::new(
-          if name.ends_with("distance_with_radius") { "c2v_with_radius" } else { "c2v_with_radius_array" },
-          "not_a_bound",
-          format!("{}(depth {}, {:e}, {:e}, r={:e}) = {:e} but cell {} = {:?}, whose centre ({:e}, {:e}) is within the radius, has a vertex {:e} rad from its centre (ratio {})", name, d, lon, lat, r, val, h, cell, cl, cb, truth, val / truth),
-        )
-        .fact("cell_abs_lat", cb.abs())));
-      }
-    }
-  }
+  rec.class(if compared > 0 { "some_cell_centre_within_radius" } else { "no_cell_centre_within_radius" });
   Ok(())
 }
 
@@ -338,6 +358,14 @@ pub fn check_mono(c: &(f64, f64), rec: &mut Rec) -> Result<(), Violation> {
   rec.nontrivial(fp_f64s(&[a, b]));
   rec.sample(|| json!(c));
   let (da, db) = (catch(|| cdshealpix::best_starting_depth(a)), catch(|| cdshealpix::best_starting_depth(b)));
+  // has_best_starting_depth announces exactly the refusals
+  for (r, res) in [(a, &da), (b, &db)] {
+    if let Ok(has) = catch(|| cdshealpix::has_best_starting_depth(r)) {
+      if has != res.is_ok() {
+        return Err(Violation::new("bsd_monotone", "has_bsd_disagrees", format!("has_best_starting_depth({:e}) = {} but best_starting_depth {}", r, has, if res.is_ok() { "returns a depth" } else { "panics" })));
+      }
+    }
+  }
   match (da, db) {
     (Ok(da), Ok(db)) => {
       if da < db {
@@ -363,6 +391,8 @@ fn radius() -> BoxedStrategy<f64> {
   prop_oneof![
     4 => (-8.0f64..0.497).prop_map(|u| (10.0f64).powf(u)),
     1 => (0.5f64..std::f64::consts::PI),
+    // a few cells of a depth 0..=29 (so that cell centres do fall within the radius at the deep depths too)
+    2 => (0u32..=29, 0.3f64..6.0).prop_map(|(k, f)| (f * 1.0 / (1u64 << k) as f64).min(3.0)),
     1 => (0.0f64..0.2).prop_map(|x| 1e-3 + x),
   ]
   .boxed()
@@ -375,7 +405,7 @@ fn strat_rad() -> BoxedStrategy<RadCase> {
 }
 
 fn strat_bsd() -> BoxedStrategy<BsdCase> {
-  let rel = prop_oneof![3 => 0.97f64..1.0, 1 => Just(0.999999999), 2 => 0.5f64..0.97, 1 => 1.0f64..1.03];
+  let rel = prop_oneof![3 => 0.97f64..1.0, 1 => Just(0.999999999), 2 => 0.5f64..0.97, 1 => 1.0f64..1.03, 1 => Just(1.0f64)];
   (0u8..30, rel, gens::position_principal(), prop::collection::vec(0.0f64..geom::TWO_PI, 16..40))
     .prop_map(|(k, rel, pos, mut az)| {
       for q in 0..8 {
@@ -387,7 +417,13 @@ fn strat_bsd() -> BoxedStrategy<BsdCase> {
 }
 
 fn strat_mono() -> BoxedStrategy<(f64, f64)> {
-  let r = || (-10.0f64..0.0).prop_map(|u| (10.0f64).powf(u));
+  let r = || {
+    prop_oneof![
+      4 => (-10.0f64..0.6).prop_map(|u| (10.0f64).powf(u)),
+      // on and next to the limits as the function itself places them (entry 0 included: the refusal starts there)
+      2 => (0u8..30, -2i32..=2).prop_map(|(k, n)| geom::nudge(threshold_by_bisection(k), n)),
+    ]
+  };
   (r(), r()).boxed()
 }
 
